@@ -132,6 +132,7 @@ type Sim struct {
 	stalled          []*dialReq
 	mux              mqtt.Handler
 	manualConnects   int
+	diagN            int
 }
 
 type opState struct {
@@ -211,7 +212,11 @@ var raceKinds = map[string]bool{"tx": true, "txbad": true, "rx": true, "judge": 
 
 func (s *Sim) log(r Rec) {
 	if s.race && !raceKinds[r.Kind] {
-		return
+		// C17's engine R pass judges handler identity and needs the hand-overs and
+		// the registrations (it is not looking for data races)
+		if !(s.sc.Prop == "C17" && (r.Kind == "hin" || r.Kind == "inv" || r.Kind == "ret" || r.Kind == "dialdone" || r.Kind == "close" || r.Kind == "write")) {
+			return
+		}
 	}
 	s.mu.Lock()
 	r.Seq = s.curSeq
@@ -351,7 +356,13 @@ func (s *Sim) runRoot(res *Result) {
 	// schedule scenario events; unique sub-microsecond residues keep scenario
 	// events and library timers (whole microseconds) off the same instant.
 	idx := 0
-	resid := func() int64 { idx++; return int64(1 + idx%997) }
+	resid := func() int64 {
+		if s.race {
+			return 0 // engine R: events of one microsecond are applied back to back, so that what they wake runs concurrently
+		}
+		idx++
+		return int64(1 + idx%997)
+	}
 	gates := map[int64]chan struct{}{}
 	for i := range sc.Ops {
 		i := i
